@@ -553,12 +553,26 @@ class NewHeaderStream(Stream):
             return "err:create"
         except MissingReuseInfoError:
             return "err:missing"
+        except Exception as e:  # noqa
+            return "err:traceback:" + type(e).__name__
 
     def model_lines(self, case):
         tm = "default" if case["tmpl"] == "default" else "rendered:" + enc(annotcorr.render_with(case["tmpl"], sorted(case["cpr"]), sorted(case["con"]), sorted(case["lic"])))
-        return ["newheader\t%s\t%s\t%s\t%s\t%s\t%s" % (case["s"], case["f"], tm, enc_list(case["cpr"]), enc_list(case["con"]), enc_list(case["lic"]))]
+        # the `parses` oracle: which of the expressions a template spells out does the real parser reject?
+        bad = []
+        if case["tmpl"].startswith("literal-"):
+            import re
+            from reuse import _LICENSING
+            for v in re.findall(r"SPDX-License-Identifier: (.*)", annotcorr.TEMPLATES[case["tmpl"]]):
+                try:
+                    _LICENSING.parse(v)
+                except Exception:
+                    bad.append(v)
+        return ["newheader\t%s\t%s\t%s\t%s\t%s\t%s\t%s" % (case["s"], case["f"], tm, enc_list(case["cpr"]), enc_list(case["con"]), enc_list(case["lic"]), enc_list(bad))]
 
     def oracle(self, case, impl_out):
+        if impl_out.startswith("err:traceback"):
+            return "traceback: _create_new_header with template %s ended in %s instead of a header or a refusal" % (case["tmpl"], impl_out[14:])
         if not impl_out.startswith("ok:"):
             return None
         got = G.lint_read_bytes(dec(impl_out[3:]).encode("utf-8"))
